@@ -50,6 +50,7 @@ type Config struct {
 	TimeoutMs    int
 	Tier         string
 	MaxWallS     int // per harness wall-clock budget
+	Witnesses    int // sample this many complete paths as concrete witnesses
 }
 
 // Machine executes one harness function over all feasible paths.
@@ -79,6 +80,10 @@ type Machine struct {
 
 	// per harness
 	Res *HarnessResult
+
+	// concrete replay of a witness model (translator self-test, DESIGN 3.16)
+	Concrete map[string]ModelVal
+	Trace    []string
 
 	frontierDepth int     // >0: stop at this many decisions and record prefixes
 	Frontier      [][]int // recorded decision prefixes
@@ -117,6 +122,7 @@ type HarnessResult struct {
 	Samples     []map[string]interface{}
 	Functions   map[string]bool
 	UnwindChecks int
+	Witnesses   []map[string]ModelVal // models of sampled complete paths
 }
 
 func NewMachine(prog *ssa.Program, solver *Solver, cfg Config, hooks *Hooks) *Machine {
@@ -275,8 +281,66 @@ func (m *Machine) runPath(fn *ssa.Function) {
 		for _, id := range m.reached {
 			m.Res.Reached[id]++
 		}
+		m.sampleWitness()
 	}()
 	m.callFunction(fn, nil)
+}
+
+// sampleWitness keeps a model of the inputs of some complete paths (the
+// first ones, then ever more sparsely).
+func (m *Machine) sampleWitness() {
+	if m.Concrete != nil || m.Cfg.Witnesses == 0 || len(m.Res.Witnesses) >= m.Cfg.Witnesses {
+		return
+	}
+	n := m.Res.Paths
+	if n > 3 && n%7 != 0 {
+		return
+	}
+	res, model := m.Solver.CheckPCModel(m.pc, nil, m.nondet)
+	if res != Sat {
+		return
+	}
+	w := map[string]ModelVal{}
+	for _, nv := range m.nondet {
+		if mv, ok := model[nv.Key()]; ok {
+			w[nv.S] = mv
+		}
+	}
+	if ch, ok := m.env["choices"].(map[string]int64); ok {
+		for k, v := range ch {
+			w[k] = ModelVal{Sort: SInt, I: v}
+		}
+	}
+	m.Res.Witnesses = append(m.Res.Witnesses, w)
+}
+
+// RunConcrete executes fn once with every harness input taken from model and
+// returns the observation trace (assert outcomes, reach marks, observations).
+func (m *Machine) RunConcrete(fn *ssa.Function, model map[string]ModelVal) (trace []string, problem string) {
+	m.Res = &HarnessResult{Name: fn.Name(), Reached: map[string]int{}, Functions: map[string]bool{}}
+	m.dec = nil
+	m.resetPath()
+	m.Concrete = model
+	m.Trace = nil
+	defer func() {
+		m.Concrete = nil
+		trace = m.Trace
+		if r := recover(); r != nil {
+			switch x := r.(type) {
+			case pathAbort:
+				trace = append(trace, "skip")
+			case goPanic:
+				trace = append(trace, "panic")
+				_ = x
+			case engineError:
+				problem = x.msg
+			default:
+				panic(r)
+			}
+		}
+	}()
+	m.callFunction(fn, nil)
+	return
 }
 
 // ---------------------------------------------------------------------------
@@ -326,6 +390,20 @@ func (m *Machine) feasible(c *Term) Result {
 func (m *Machine) choose(n int, exhaustive bool, cond func(i int) *Term) int {
 	if n == 1 && exhaustive {
 		return 0
+	}
+	if m.Concrete != nil {
+		// all inputs are concrete: exactly one alternative can be true
+		for alt := 0; alt < n; alt++ {
+			c := cond(alt)
+			if c.IsConst() {
+				if c.B {
+					return alt
+				}
+				continue
+			}
+			unsupported("concrete self-test: a branch condition stayed symbolic: %s", truncate(c.SMT(), 200))
+		}
+		panic(pathAbort{"no alternative"})
 	}
 	if len(m.dec) > m.Cfg.MaxDecisions {
 		m.Res.UnwindChecks++
